@@ -328,3 +328,97 @@ func checkSMEMOperands(c *core.Ctx, t *InstTables) {
 		}
 	}
 }
+
+// sop2Expected: the register counts of (SDST, SSRC0, SSRC1) of a SOP2 instruction, from its
+// mnemonic and the ISA's operand table: a 64-bit instruction works on SGPR pairs, except that the
+// shift amount of the 64-bit shifts, the offset / width operand of the 64-bit bit-field extracts and
+// both sources of s_bfm_b64 are 32-bit.
+func sop2Expected(name string) (dst, s0, s1 int64, ok bool) {
+	name = strings.TrimSuffix(name, "_e32")
+	is64 := strings.HasSuffix(name, "_b64") || strings.HasSuffix(name, "_i64") || strings.HasSuffix(name, "_u64")
+	switch name {
+	case "s_lshl_b64", "s_lshr_b64", "s_ashr_i64", "s_bfe_u64", "s_bfe_i64":
+		return 2, 2, 1, true
+	case "s_bfm_b64":
+		return 2, 1, 1, true
+	case "s_cbranch_g_fork", "s_rfe_restore_b64", "s_setvskip":
+		return 0, 0, 0, false
+	}
+	if is64 {
+		return 2, 2, 2, true
+	}
+	return 1, 1, 1, true
+}
+
+// checkSOP2Operands (R04.33): decodeSOP2 widens the operands by a test of the mnemonic
+// (strings.Contains(InstName, "64")); the decoder is followed per SOP2 row with the tests of
+// InstName decided for that row's mnemonic (nameReach), and the RegCount stores it reaches are
+// compared with the ISA's operand widths.
+func checkSOP2Operands(c *core.Ctx, t *InstTables) {
+	st := c.Rule("R04.33", "the register counts decodeSOP2 gives SDST, SSRC0 and SSRC1 follow the ISA's operand table for the row's mnemonic: SGPR pairs for 64-bit instructions, except the 32-bit shift amount of s_lshl_b64 / s_lshr_b64 / s_ashr_i64, the 32-bit offset-and-width operand of s_bfe_u64 / s_bfe_i64 and both 32-bit sources of s_bfm_b64; decided per SOP2 row by following the decoder with its tests of the mnemonic resolved for that row (nameReach) to its RegCount stores", 40)
+	fn := c.SSAFunc(instsPkg, "Disassembler.decodeSOP2")
+	if fn == nil {
+		c.Report(core.Finding{Rule: "R04.33", Kind: "anchor", Pkg: instsPkg, Func: "Disassembler.decodeSOP2", Detail: "anchor", Msg: "decodeSOP2 not found"})
+		return
+	}
+	seen := map[string]bool{}
+	for _, r := range t.Rows {
+		if r.Format != "SOP2" {
+			continue
+		}
+		name := strings.TrimSpace(r.Name)
+		if seen[name] {
+			continue
+		}
+		seen[name] = true
+		wd, w0, w1, ok := sop2Expected(name)
+		if !ok {
+			continue
+		}
+		got := map[string]int64{"Dst": 0, "Src0": 0, "Src1": 0}
+		for _, b := range nameReach(fn, name) {
+			for _, in := range b.Instrs {
+				s, ok := in.(*ssa.Store)
+				if !ok {
+					continue
+				}
+				fa, ok := s.Addr.(*ssa.FieldAddr)
+				if !ok || fieldNameOf(fa) != "RegCount" {
+					continue
+				}
+				ld, ok := fa.X.(*ssa.UnOp)
+				if !ok {
+					continue
+				}
+				of := core.LoadedField(ld)
+				if of == nil {
+					continue
+				}
+				if k, isC := core.ConstInt(s.Val); isC {
+					if _, tracked := got[of.Name()]; tracked {
+						got[of.Name()] = k
+					}
+				}
+			}
+		}
+		norm := func(k int64) int64 {
+			if k == 0 {
+				return 1
+			}
+			return k
+		}
+		for _, op := range []struct {
+			field string
+			want  int64
+		}{{"Dst", wd}, {"Src0", w0}, {"Src1", w1}} {
+			st.Instances++
+			c.MarkAnalysed(fn)
+			okW := norm(got[op.field]) == op.want
+			st.Ob(okW)
+			if !okW {
+				c.Report(core.Finding{Rule: "R04.33", Pkg: instsPkg, Func: "Disassembler.decodeSOP2", Detail: fmt.Sprintf("sop2-operand:%s:%s", name, op.field), Pos: c.Position(r.Pos),
+					Msg: fmt.Sprintf("%s (SOP2 opcode %d) is decoded with %d register(s) for %s; the instruction uses %d (s_lshl_b64 s[0:1], s[2:3], s4 decodes and prints its shift amount as s[4:5], and the register pair is read where one SGPR is meant)", name, r.Opcode, norm(got[op.field]), op.field, op.want)})
+			}
+		}
+	}
+}
